@@ -25,6 +25,7 @@ mod bind;
 mod explore;
 mod json;
 mod props;
+mod realbin;
 mod refchess;
 mod report;
 mod sched;
@@ -230,10 +231,10 @@ fn replay(path: &str, worker: bool) -> i32 {
             "c09-root" => props::c09::replay(r),
             "c10-root" | "c10-history" | "c10-game" => props::c10::replay(r),
             "e5-schedule" if prop == "C19" => props::c19::replay(r),
-            "e5-schedule" | "c14-deep" | "c14-grammar" => props::c14::replay(r, &props::c14::oracle),
+            "e5-schedule" | "c14-deep" | "c14-grammar" | "c14-real" => props::c14::replay(r, &props::c14::oracle),
             "c13-case" => props::c13::replay(r),
             "c15-mobility" | "c15-stack" | "c15-autoplay" => props::c15::replay(r),
-            "c19-history" | "c19-process" => props::c19::replay(r),
+            "c19-history" | "c19-process" | "c19-inert" | "c19-real" => props::c19::replay(r),
             _ => Err(format!("unknown replay kind {:?}", kind)),
         }
     };
